@@ -34,6 +34,11 @@ POS_TOKENS = ['1', '2', '0.5', '.5', '+1', '1.', '1e0', '3.25', '1E1', '0.1', '7
 NAN_TOKENS = ['nan', 'NaN', 'NAN', '-nan', '+nan']
 INF_TOKENS = ['INF', '-INF', 'inf', '-inf', 'Infinity', '+INF']
 WORDS = ['alpha', 'Beta', 'gamma3', 'delta_x', 'eps', 'zeta', 'Eta', 'theta', 'iota', 'kappa', 'lam', 'mu']
+ODD_WORDS = ['\u00dcn\u00ef-c\u00f6de', 'a.b-c', 'x&y', 'p<q>r', 'quo"te', "it's", '\u4e2d\u6587']
+
+
+def esc(v):
+    return v.replace('&', '&amp;').replace('<', '&lt;').replace('>', '&gt;').replace('"', '&quot;')
 
 
 class G(object):
@@ -44,6 +49,7 @@ class G(object):
         self.opts = opts
         self.nid = 0
         self.odd_ws = rng.random() < 0.5
+        self.odd_names = rng.random() < 0.3     # names / symbols / texts with non-ASCII and escaped characters
         self.foreign = opts.get('foreign') if opts.get('foreign') is not None else rng.random() < 0.4
         self.prefix = ''
         pf = opts.get('prefixed')
@@ -96,6 +102,8 @@ class G(object):
         return out
 
     def word(self):
+        if self.odd_names and self.rng.random() < 0.25:
+            return self.rng.choice(ODD_WORDS)
         return self.rng.choice(WORDS)
 
     def phrase(self):
@@ -109,7 +117,7 @@ class G(object):
         a = ''
         for k, v in (attrs or []):
             if v is not None:
-                a += ' %s="%s"' % (k, v)
+                a += ' %s="%s"' % (k, esc(v))
         if body is None:
             return '<%s%s%s/>' % (self.t(name), a, extra_decl)
         return '<%s%s%s>%s</%s>' % (self.t(name), a, extra_decl, body, self.t(name))
@@ -117,7 +125,7 @@ class G(object):
     def extra(self):
         """an <extra> in the COLLADA namespace; with foreign-namespace content when enabled"""
         if self.foreign and self.chance(0.7):
-            inner = ('<f:data f:mark="%s" plain="1">%s</f:data><f:empty/>' % (self.word(), self.phrase()))
+            inner = ('<f:data f:mark="%s" plain="1">%s</f:data><f:empty/>' % (esc(self.word()), esc(self.phrase())))
             tech = self.el('technique', [('profile', 'FOREIGN')], inner)
             return self.el('extra', [], tech, extra_decl=' xmlns:f="%s"' % FOREIGN_NS)
         return self.el('extra', [], self.el('technique', [('profile', 'OTHER')],
@@ -171,7 +179,15 @@ def gen_geometry(g):
         srcs.append(s)
         return s
 
-    pos = add_src('pos', ['X', 'Y', 'Z'], 3, 6)
+    big = g.opts.get('big')
+    large = True
+    if big:
+        pos = add_src('pos', ['X', 'Y', 'Z'], big, big)          # indices beyond 16 bits
+    elif g.chance(0.04):
+        pos = add_src('pos', ['X', 'Y', 'Z'], 260, 400)          # indices beyond 8 bits
+    else:
+        pos = add_src('pos', ['X', 'Y', 'Z'], 3, 6)
+        large = False
     normals = [add_src('nrm', ['X', 'Y', 'Z']) for _ in range(rng.choice([0, 1, 1, 2]))]
     texs = [add_src('tex', rng.choice(TEX_PARAM_FORMS)) for _ in range(rng.choice([0, 1, 2, 3]))]
     cols = [add_src('col', rng.choice([['R', 'G', 'B'], ['R', 'G', 'B', 'A']])) for _ in range(rng.choice([0, 0, 1]))]
@@ -184,11 +200,13 @@ def gen_geometry(g):
     # <vertices>
     vid = g.fid(gid + '-vtx')
     vin = [('POSITION', pos['id'])]
-    if normals and g.chance(0.45):
+    if large:
+        pass          # nothing else at the VERTEX offset: the indices can then reach the end of the large source
+    elif normals and g.chance(0.45):
         vin.append(('NORMAL', rng.choice(normals)['id']))
-    if texs and g.chance(0.3):
+    if not large and texs and g.chance(0.3):
         vin.append(('TEXCOORD', rng.choice(texs)['id']))
-    if cols and g.chance(0.3):
+    if not large and cols and g.chance(0.3):
         vin.append(('COLOR', rng.choice(cols)['id']))
     rng.shuffle(vin)
     geom['vertices'] = {'id': vid, 'inputs': vin}
@@ -196,8 +214,12 @@ def gen_geometry(g):
     vlevel = dict(vin)
 
     nprims = rng.choice([0, 1, 1, 2, 3]) if g.size > 0 else rng.choice([0, 1, 1, 1, 2])
+    if large:
+        nprims = max(nprims, 2)
     for _ in range(nprims):
         tag = rng.choice(['triangles', 'triangles', 'tristrips', 'trifans', 'lines', 'polylist', 'polylist', 'polygons'])
+        if large and len(geom['prims']) < 2:
+            tag = ['triangles', 'polylist'][len(geom['prims'])]
         inputs = [['VERTEX', vid, None]]
         if normals and g.chance(0.6):
             inputs.append(['NORMAL', rng.choice(normals)['id'], None])
@@ -246,7 +268,9 @@ def gen_geometry(g):
             out = []
             for _ in range(k):
                 for o in range(nind):
-                    out.append(rng.randint(0, limit.get(o, 9) - 1))
+                    hi_ = limit.get(o, 9) - 1
+                    # large sources: mostly the last indices (they are the ones a narrow integer type would wrap)
+                    out.append(rng.randint(max(0, hi_ - 3), hi_) if hi_ > 100 and rng.random() < 0.7 else rng.randint(0, hi_))
             return out
 
         prim = {'tag': tag, 'material': g.word() if g.chance(0.7) else None, 'inputs': ins, 'ps': [], 'vcount': None,
@@ -254,6 +278,8 @@ def gen_geometry(g):
         small = g.size == 0
         if tag == 'triangles':
             nt = rng.choice([0, 1, 1, 2, 3]) if small else rng.choice([0, 1, 2, 3, 5])
+            if large:
+                nt = max(nt, 2)
             prim['ps'] = [rows(3 * nt)]
             if nt == 0 and g.chance(0.5):
                 prim['ps'] = [None]          # <p/>
@@ -272,6 +298,8 @@ def gen_geometry(g):
             prim['count_attr'] = nl
         elif tag == 'polylist':
             vc = [rng.choice([0, 1, 2, 3, 3, 4, 5]) for _ in range(rng.choice([0, 1, 2, 3, 4]))]
+            if large:
+                vc = vc + [3, 4]
             prim['vcount'] = vc
             prim['ps'] = [rows(sum(vc))]
             prim['count_attr'] = len(vc)
@@ -350,8 +378,10 @@ def gen_camera(g):
 def render_camera(g, C):
     def pad(tok):
         return tok if not g.odd_ws else g.rng.choice(['', ' ', '\n']) + tok + g.rng.choice(['', ' ', '\t'])
-    body = ''.join(g.el(n, [], pad(tok)) for n, tok in C['params'])
-    body += g.el('znear', [], pad(C['znear'])) + g.el('zfar', [], pad(C['zfar']))
+    parts = [g.el(n, [], pad(tok)) for n, tok in C['params']] + [g.el('znear', [], pad(C['znear'])), g.el('zfar', [], pad(C['zfar']))]
+    if g.chance(0.3):
+        g.rng.shuffle(parts)
+    body = ''.join(parts)
     return g.el('camera', [('id', C['id']), ('name', g.word() if g.chance(0.5) else None)],
                 g.el('optics', [], g.el('technique_common', [], g.el(C['kind'], [], body))) + g.maybe_extra())
 
@@ -362,7 +392,7 @@ def gen_image(g):
 
 def render_image(g, I):
     return g.el('image', [('id', I['id']), ('name', g.word() if g.chance(0.4) else None)],
-                g.el('init_from', [], I['path']))
+                g.el('init_from', [], esc(I['path'])))
 
 
 COLOR_PROPS = ['emission', 'ambient', 'diffuse', 'specular', 'reflective', 'transparent']
@@ -562,6 +592,17 @@ def gen_node(g, ctx, depth, inst_targets):
     rng = g.rng
     N = {'id': g.fid('node') if g.chance(0.85) else None, 'name': (g.word() if g.chance(0.9) else '') if g.chance(0.5) else None,
          'sid': g.word() if g.chance(0.2) else None, 'type': rng.choice([None, None, 'NODE', 'JOINT']), 'items': []}
+    if depth == 0 and g.chance(0.04):
+        # a deep chain: forty nested nodes, one transform each, a light or geometry instance at the bottom
+        cur = N
+        for _ in range(40):
+            nxt = {'id': g.fid('deep'), 'name': None, 'sid': None, 'type': None,
+                   'items': [{'t': 'transform', 'kind': 'translate', 'tokens': g.nums(3), 'sid': None}]}
+            cur['items'].append({'t': 'node', 'node': nxt})
+            cur = nxt
+        if ctx['lights']:
+            cur['items'].append({'t': 'light', 'url': rng.choice(ctx['lights'])['id']})
+        return N
     nitems = rng.choice([0, 1, 2, 3, 4]) if g.size == 0 else rng.choice([0, 1, 2, 3, 4, 5, 6])
     for _ in range(nitems):
         r = rng.random()
@@ -673,14 +714,14 @@ def gen_asset(g):
 def render_asset(g, A):
     body = ''
     for c in A['contributors']:
-        body += g.el('contributor', [], ''.join(g.el(k, [], c[k]) for k in ['author', 'authoring_tool', 'comments', 'copyright', 'source_data'] if k in c) or None)
+        body += g.el('contributor', [], ''.join(g.el(k, [], esc(c[k])) for k in ['author', 'authoring_tool', 'comments', 'copyright', 'source_data'] if k in c) or None)
     body += g.el('created', [], A['created'])
     if A['keywords'] is not None:
-        body += g.el('keywords', [], A['keywords'])
+        body += g.el('keywords', [], esc(A['keywords']))
     body += g.el('modified', [], A['modified'])
     for k in ['revision', 'subject', 'title']:
         if A[k] is not None:
-            body += g.el(k, [], A[k])
+            body += g.el(k, [], esc(A[k]))
     if A['unit'] is not None:
         body += g.el('unit', [('name', A['unit'][0]), ('meter', A['unit'][1])])
     if A['up_axis'] is not None:
